@@ -37,6 +37,14 @@ static spif_obj_t build(const uobj_t *u) {
                                              : SPIF_OBJ(spif_str_new_from_ptr((spif_charptr_t) u->v));
     if (!strcmp(cls, "ustr")) return u->slack ? SPIF_OBJ(spif_ustr_new_from_buff((spif_charptr_t) u->v, (spif_ustridx_t) (u->vn + 1 + u->slack)))
                                               : SPIF_OBJ(spif_ustr_new_from_ptr((spif_charptr_t) u->v));
+    if (!strcmp(cls, "str_nul") || !strcmp(cls, "ustr_nul")) {
+        /* texts with embedded NUL characters (reachable through append_char(0), clear(0), binary descriptors): no particular
+         * order is claimed for them (DESIGN.md 8a excludes NUL from str values), but comp must still be a consistent order */
+        int u8 = (cls[0] == 'u'); size_t i;
+        spif_obj_t o = u8 ? SPIF_OBJ(spif_ustr_new_from_ptr((spif_charptr_t) "")) : SPIF_OBJ(spif_str_new_from_ptr((spif_charptr_t) ""));
+        for (i = 0; i < u->vn; i++) { if (u8) spif_ustr_append_char((spif_ustr_t) o, (spif_char_t) u->v[i]); else spif_str_append_char(SPIF_STR(o), (spif_char_t) u->v[i]); }
+        return o;
+    }
     if (!strcmp(cls, "mbuff")) return SPIF_OBJ(spif_mbuff_new_from_buff((spif_byteptr_t) u->v, (spif_memidx_t) u->vn, (spif_memidx_t) (u->vn + u->slack)));
     if (!strcmp(cls, "url")) return SPIF_OBJ(spif_url_new_from_ptr((spif_charptr_t) u->v));
     if (!strcmp(cls, "regexp")) return SPIF_OBJ(spif_regexp_new_from_ptr((spif_charptr_t) u->v));
